@@ -116,14 +116,17 @@ def metamorphic(ck, H, summ, rng, n):
     results = []
     slope_pairs = {}
     for k, (year, forms, sseed, prof, ov) in enumerate(c15.c15_scenarios(rng, n)):
-        if year not in summ:
+        if not summ:
             continue
+        # a year whose forms could not be translated (fail-closed translator) is still exercised on the real code; which lines are
+        # per-payer listing lines is then read from the nearest translated year (the Schedule B rows have the same names in every year)
+        ysum = year if year in summ else min(summ, key=lambda y_: abs(y_ - year))
         prof = dict(prof)
         # several copies of the income forms, with withholding on the 1099s too
         if k % 2 == 0:
             prof['n_w2'] = rng.choice([2, 3])
-            prof['n_other'] = {'number_1099-int': rng.choice([0, 2, 3]), 'number_1099-div': rng.choice([0, 2]), 'number_1099-r': rng.choice([0, 0, 2]),
-                               'number_1099-g': rng.choice([0, 2])}
+            prof['n_other'] = dict(prof.get('n_other', {}), **{'number_1099-int': rng.choice([0, 2, 3]), 'number_1099-div': rng.choice([0, 2]),
+                                                                'number_1099-r': rng.choice([0, 0, 2]), 'number_1099-g': rng.choice([0, 2])})
             ov = {k_: v_ for k_, v_ in ov.items() if not k_.startswith('number_1099') and not k_.startswith('1099-')}
             prof['zero_frac'] = 0.3
         r = scenarios.run_scenario(H, year, forms, sseed, prof, overrides=ov)
@@ -139,7 +142,7 @@ def metamorphic(ck, H, summ, rng, n):
             ck.notes.append('re-run of a solved scenario from its own inputs did not solve: %r' % (e0,))
             continue
         base = solution_map(s0)
-        listing = listing_lines(summ, year)
+        listing = listing_lines(summ, ysum)
         rep = {'kind': 'failing-input', 'year': year, 'forms': list(forms), 'inputs': {'%s.%s' % k_: v_ for k_, v_ in inputs.items()}}
         # (a) renumbering
         for form in MULTI:
@@ -237,6 +240,43 @@ def metamorphic(ck, H, summ, rng, n):
                 ck.violation('C16:%d:withholding-slope:%s' % (year, key[0].split(':')[0]),
                              'ty%d: %.2f more withheld on %s.%s moves refund-minus-owed by %.2f' % (year, delta, key[0], key[1], net1 - net0),
                              dict(rep, transformation={'add': {'%s.%s' % key: delta}}, observed={'net_before': net0, 'net_after': net1}), found=True)
+        # North Carolina withholding, whole dollars: W-2 box 17 and the state-tax boxes of the 1099s when the state is N.C., for each owner
+        # the form can have (joint accounts - 'both' - included): the N.C. refund-minus-owed moves by exactly the amount
+        if 'nc_d-400' in forms and base.get('nc_d-400.refund') is not None:
+            joint = inputs.get(('1040', 'filing_status')) == 'MarriedFilingJointly'
+            NCW = [('w-2:0', 'box_15', 'box_17', ['taxpayer'] + (['spouse'] if joint else [])),
+                   ('1099-int:0', 'box_15_1', 'box_17_1', ['taxpayer', 'both'] + (['spouse'] if joint else [])),
+                   ('1099-div:0', 'box_14_1', 'box_16_1', ['taxpayer', 'both'] + (['spouse'] if joint else [])),
+                   ('1099-g:0', 'box_10a_1', 'box_11_1', ['taxpayer', 'both'] + (['spouse'] if joint else [])),
+                   ('1099-r:0', 'box_14_1_state', 'box_14_1', ['taxpayer'] + (['spouse'] if joint else []))]
+            for sec, statekey, amtkey, owners in NCW:
+                if (sec, amtkey) not in inputs:
+                    continue
+                owner = owners[(k + len(sec)) % len(owners)]
+                v0 = dict(inputs)
+                v0[(sec, statekey)] = 'NC'
+                v0[(sec, 'belongs_to')] = owner
+                # N.C. lines are whole dollars: the withheld amounts are summed with their cents and the sum is rounded (half-even), so
+                # a whole-dollar increment may move the rounded sum by one dollar more or less; a tolerance of one dollar with
+                # increments of 7 and 250 still separates "counted once" from "not counted" and "counted twice"
+                delta = float(rng.choice([7, 250]))
+                v0[(sec, amtkey)] = '%.2f' % float(int(float(v0.get((sec, amtkey), '0') or 0)))
+                v1 = dict(v0)
+                v1[(sec, amtkey)] = '%.2f' % (float(v0[(sec, amtkey)]) + delta)
+                okA, sA, eA = run_with(H, year, forms, v0)
+                okB, sB, eB = run_with(H, year, forms, v1)
+                if not (okA and okB):
+                    stats['pairs_skipped_not_both_solved'] += 1
+                    continue
+                stats['nc_withholding_pairs'] = stats.get('nc_withholding_pairs', 0) + 1
+                ck.count((year, 'nc-withholding', sec.split(':')[0], owner), nontrivial=True)
+                nA, nB = solution_map(sA).get('nc_d-400.refund'), solution_map(sB).get('nc_d-400.refund')
+                if nA is None or nB is None or abs((nB - nA) - delta) > 1.005:
+                    ck.violation('C16:%d:nc-withholding-slope:%s:%s' % (year, sec.split(':')[0], owner),
+                                 'ty%d: %.2f more N.C. tax withheld on %s.%s (owner %s) moves the N.C. refund-minus-owed by %r' % (
+                                     year, delta, sec, amtkey, owner, None if nA is None or nB is None else nB - nA),
+                                 dict(rep, transformation={'set': {'%s.%s' % (sec, statekey): 'NC', '%s.belongs_to' % sec: owner}, 'add': {'%s.%s' % (sec, amtkey): delta}},
+                                      observed={'nc_refund_before': nA, 'nc_refund_after': nB}), found=True)
     ck.cov['metamorphic'] = stats
     return results, slope_pairs
 
